@@ -297,6 +297,29 @@ def main(argv=None):
     if refuted and not violations:
         # the prover refuted an obligation but the bounded search found no failing input on the real code
         for (r, o, v) in refuted[:5]:
+            # a contract may turn the solver's counter-model into an input for the REAL function (extra["concretize"]): the candidate is run on the
+            # scratch build, and only if it fails there is it recorded as the failing input; otherwise the obligation is reported without one
+            conc = r.contract.extra.get("concretize")
+            script = None
+            if conc is not None:
+                try:
+                    cand = conc(o.name, v.get("model") or "")
+                    if cand:
+                        bdir = racbuild.get_build()
+                        pr = subprocess.run([sys.executable, "-c", cand], env=dict(os.environ, PYTHONPATH=bdir, XDEPS_BUILD_DIR=bdir),
+                                            capture_output=True, text=True, timeout=120)
+                        if pr.returncode != 0:
+                            script = cand
+                            lines.append(f"# counter-model of {o.name} replayed on the real code: " + (pr.stderr.strip().splitlines() or ["fails"])[-1][:300])
+                except Exception as ex:      # noqa  (a concretisation that cannot be built or run decides nothing)
+                    script = None
+            if script:
+                path = write_replay(prop, nrep, dict(property=prop, obligation=o.name, script=script,
+                                                     solver=dict(verdict=v["verdict"], backend=v["backend"], model=v["model"]),
+                                                     what=f"obligation {o.name} refuted by {v['backend']}; the counter-model fails on the real code"))
+                nrep += 1
+                violations.append((path, f"obligation {o.name} refuted; counter-model replayed on the real code", ""))
+                continue
             path = write_replay(prop, nrep, dict(property=prop, obligation=o.name, script=None,
                                                  solver=dict(verdict=v["verdict"], backend=v["backend"],
                                                              model=v["model"]),
